@@ -203,13 +203,17 @@ def install_audit():
 # ============================================================================ fault layer
 
 FAULT_KINDS = {
-    "open": ["EACCES", "ENOSPC", "EMFILE"],
-    "write": ["EIO", "ENOSPC", "TORN"],
+    "open": ["EACCES", "ENOSPC", "EMFILE", "CRASH"],
+    "write": ["EIO", "ENOSPC", "TORN", "CRASH"],
     "close": ["EIO"],
     "mkdir": ["ENOSPC", "EACCES"],
 }
+
+
+class SimCrash(BaseException):
+    """The process is killed at this point (not an Exception: ordinary handlers do not see it)."""
 _ERRNO = {"EACCES": errno.EACCES, "ENOSPC": errno.ENOSPC, "EMFILE": errno.EMFILE,
-          "EIO": errno.EIO, "TORN": errno.ENOSPC}
+          "EIO": errno.EIO, "TORN": errno.ENOSPC, "CRASH": 0}
 
 
 def _site(ctx, kind, path):
@@ -242,6 +246,8 @@ def _site(ctx, kind, path):
 
 
 def _raise(fk, path):
+    if fk == "CRASH":
+        raise SimCrash(f"killed at {path}")
     raise OSError(_ERRNO[fk], os.strerror(_ERRNO[fk]) + " (injected)", os.fspath(path) if path is not None else None)
 
 
